@@ -151,6 +151,8 @@ def generate(seed, tier="quick"):
                       {"op": "set", "view": [["branch", {"t": "int", "v": b_}]], "key": key, "val": {"seed": o.randrange(1 << 30)}}]
         else:
             c_ = {"op": "set_ncomp", "branch": o.randrange(64), "n": o.randint(1, 5)}
+            if o.random() < 0.12:
+                c_["odd"] = o.choice(["part", "multi"])  # refused call inside the sequence: some compartments of a branch / two branches
             if o.random() < 0.25:
                 c_["min_radius"] = o.choice([0.3, 0.6, 1.0, 1.5])  # caps the SWC radius profile of *this* call only
             calls.append(c_)
